@@ -24,13 +24,16 @@ def reference_stems(url, suffix_aware=False):
     labels = host.lower().split(".") if suffix_aware else host.split(".")
     units = list(reversed(labels))
     if suffix_aware:
+        # the root label of a fully qualified name ('co.uk.') is a unit of its own, in front of the suffix
+        rooted = len(labels) > 1 and labels[-1] == ""
+        core = labels[:-1] if rooted else labels
         try:
-            n = _psl().suffix_length(host.lower().split("."))
+            n = _psl().suffix_length(core)
         except Exception:
             n = None
         if n:
-            n = min(n, len(labels))
-            units = [".".join(labels[-n:])] + list(reversed(labels[:-n]))
+            n = min(n, len(core))
+            units = ([""] if rooted else []) + [".".join(core[-n:])] + list(reversed(core[:-n]))
     stems += ["h:" + u for u in units]
     if r["path"]:
         stems += ["p:" + seg for seg in r["path"].split("/")[1:]]
